@@ -1181,6 +1181,54 @@ def rule_r11(ctx):
             )
         else:
             rr.ok(what)
+    # a child table is skipped (no namespace, no descent) only on evidence no user scope can produce:
+    # the name `lambda` (a keyword), or a comprehension name TOGETHER with the implicit parameter `.0`.
+    # `genexpr`, `listcomp`, ... alone are valid identifiers: `def genexpr(): ...` has that table name.
+    import keyword
+
+    def name_test_strings(test):
+        """String constants compared with <table>.get_name() inside a condition."""
+        out = []
+        for c in ast.walk(test):
+            if isinstance(c, ast.Compare) and any(isinstance(x, ast.Call) and isinstance(x.func, ast.Attribute) and x.func.attr == "get_name" for x in ast.walk(c)):
+                out += [k.value for k in ast.walk(c) if isinstance(k, ast.Constant) and isinstance(k.value, str)]
+        return out
+
+    def other_strings(test):
+        names = set(name_test_strings(test))
+        return [k.value for k in ast.walk(test) if isinstance(k, ast.Constant) and isinstance(k.value, str) and k.value not in names]
+
+    def expand(test):
+        """The condition plus the bodies of the module-level helpers it calls."""
+        out = [test]
+        for c in ast.walk(test):
+            if isinstance(c, ast.Call) and isinstance(c.func, ast.Name):
+                for n in ast.walk(mi.tree):
+                    if isinstance(n, ast.FunctionDef) and n.name == c.func.id and n is not fi.node:
+                        out.append(n)
+        return out
+
+    for done, term in _stmt_paths(tr.orelse):
+        pushes = stack_ops(done, "append")
+        if term != "Continue" or pushes.get(ns_stack):
+            continue
+        tests = [x for x in done if isinstance(x, ast.expr)]
+        parts = [p for t in tests for p in expand(t)]
+        names = [s_ for p in parts for s_ in name_test_strings(p)]
+        if not names:
+            continue
+        rr.instances += 1
+        weak = [n for n in names if n.isidentifier() and not keyword.iskeyword(n)]
+        evidence = [s_ for p in parts for s_ in other_strings(p) if not s_.isidentifier()]
+        what = f"skip|{'&'.join(ast.unparse(t)[:30] for t in tests)[:80]}"
+        if weak and not evidence:
+            rr.fail(
+                "C06-R11|generate_nsp|skip-by-name",
+                f"{fi.where()}: a child symbol table is skipped (no namespace is created for it) because its name is one of {sorted(set(weak))} and nothing else: `def {weak[0]}(): ...` is a legal user function with exactly that table name, it gets no namespace and the conversion of its `def` fails ('Namespace not found')",
+                where=fi.where(), what=what,
+            )
+        else:
+            rr.ok(what, sample={"rule": "C06-R11", "skip": [ast.unparse(t)[:50] for t in tests], "names": sorted(set(names)), "extra evidence": sorted(set(evidence))})
     # the statement side: a def/class statement picks, among the children of the current namespace,
     # the one built from ITS symbol table.  Names repeat (redefinitions, property setters, overloads,
     # conditional definitions); the line of the statement does not, so the match must test it.
